@@ -245,3 +245,230 @@ example :
                      .ok, .inserted 0] := by decide
 
 end Rpc
+
+/-! ### for every history of client requests -/
+
+namespace Rpc
+open Spec Actor Tables
+
+/-- the capability table holds only the two kinds the code can decode -/
+def KindsOk (t : T) : Prop := ∀ r ∈ t.namespaces, r.2.1 = 1 ∨ r.2.1 = 2
+
+theorem mem_nsInsert (r x : Bytes × Nat × Bytes) (l : List (Bytes × Nat × Bytes)) (h : x ∈ nsInsert r l) :
+    x = r ∨ x ∈ l := by
+  induction l with
+  | nil => simp [nsInsert] at h; exact Or.inl h
+  | cons y ys ih =>
+    unfold nsInsert at h
+    split at h
+    · rcases List.mem_cons.mp h with h | h
+      · exact Or.inl h
+      · exact Or.inr h
+    · split at h
+      · rcases List.mem_cons.mp h with h | h
+        · exact Or.inr (List.mem_cons.mpr (Or.inl h))
+        · rcases ih h with h | h
+          · exact Or.inl h
+          · exact Or.inr (List.mem_cons.mpr (Or.inr h))
+      · rcases List.mem_cons.mp h with h | h
+        · exact Or.inl h
+        · exact Or.inr (List.mem_cons.mpr (Or.inr h))
+
+theorem kindsOk_nsGet {t : T} (h : KindsOk t) {ns : Bytes} {k0 : Nat} {raw0 : Bytes}
+    (hg : nsGet t ns = some (k0, raw0)) : k0 = 1 ∨ k0 = 2 := by
+  unfold nsGet at hg
+  cases hf : t.namespaces.find? (fun r => r.1 == ns) with
+  | none => rw [hf] at hg; cases hg
+  | some r =>
+    rw [hf] at hg
+    have hm := List.mem_of_find?_eq_some hf
+    have := h r hm
+    simp only [Option.map_some, Option.some.injEq] at hg
+    rw [hg] at this
+    exact this
+
+theorem kindsOk_import (t : T) (ns : Bytes) (kind : Nat) (raw : Bytes) (h : KindsOk t)
+    (hk : kind = 1 ∨ kind = 2) : KindsOk (importNamespace t ns kind raw).1 := by
+  unfold importNamespace
+  cases hg : nsGet t ns with
+  | none =>
+    intro r hr
+    rcases mem_nsInsert _ _ _ hr with h1 | h1
+    · rw [h1]; exact hk
+    · exact h r h1
+  | some v =>
+    obtain ⟨k0, raw0⟩ := v
+    have hk0 := kindsOk_nsGet h hg
+    simp only
+    split
+    · intro r hr
+      rcases mem_nsInsert _ _ _ hr with h1 | h1
+      · rw [h1]; exact Or.inl rfl
+      · exact h r h1
+    · intro r hr
+      rcases mem_nsInsert _ _ _ hr with h1 | h1
+      · rw [h1]; exact hk0
+      · exact h r h1
+
+theorem namespaces_put (t : T) (e : Entry) : (Tables.put t e).1.namespaces = t.namespaces := by
+  unfold Tables.put
+  split
+  · rfl
+  · simp [entryPut, removePrefixFiltered]
+
+/-- a request is well formed when an imported capability is of one of the two kinds -/
+def Req.wf : Req → Prop
+  | .importNs _ kind _ => kind = 1 ∨ kind = 2
+  | _ => True
+
+theorem actor_step_kindsOk (s : AState) (a : Action) (h : KindsOk s.t)
+    (hw : ∀ ns kind raw, a = .importNamespace ns kind raw → kind = 1 ∨ kind = 2) :
+    KindsOk (Actor.step s a).1.t := by
+  have put_ok : ∀ (t : T) e, KindsOk t → KindsOk (Tables.put t e).1 := by
+    intro t e ht; unfold KindsOk; rw [namespaces_put]; exact ht
+  have close_t : ∀ ns, (closeR s ns).1.t = s.t := by
+    intro ns; unfold closeR
+    cases getOpen s ns with
+    | none => rfl
+    | some r => simp only; split <;> rfl
+  cases a with
+  | openR ns sync sub =>
+    simp only [Actor.step]
+    cases getOpen s ns with
+    | none => cases nsGet s.t ns with
+      | none => exact h
+      | some v => exact h
+    | some r => exact h
+  | close ns => simp only [Actor.step]; rw [close_t]; exact h
+  | setSync ns b => simp only [Actor.step]; cases getOpen s ns <;> exact h
+  | subscribe ns => simp only [Actor.step]; cases getOpen s ns <;> exact h
+  | unsubscribe ns => simp only [Actor.step]; cases getOpen s ns <;> exact h
+  | insertLocal ns e =>
+    simp only [Actor.step]
+    cases getOpen s ns with
+    | none => exact h
+    | some r =>
+      simp only
+      split
+      · exact h
+      · have := put_ok s.t e h
+        rcases hp : Tables.put s.t e with ⟨t', o⟩
+        rw [hp] at this
+        cases o with
+        | inserted n => exact this
+        | notInserted => exact h
+  | insertRemote ns now e =>
+    simp only [Actor.step]
+    cases getOpen s ns with
+    | none => exact h
+    | some r =>
+      simp only
+      split
+      · exact h
+      · have : KindsOk (Replica.insertRemoteEntry s.t ns now e).1 := by
+          unfold Replica.insertRemoteEntry
+          split
+          · exact h
+          · split
+            · exact h
+            · have := put_ok s.t e h
+              rcases hp : Tables.put s.t e with ⟨t', o⟩
+              rw [hp] at this
+              cases o <;> exact this
+        rcases hp : Replica.insertRemoteEntry s.t ns now e with ⟨t', res⟩
+        rw [hp] at this
+        cases res with
+        | ok n => exact this
+        | newerEntryExists => exact h
+        | failed f => exact h
+  | getExact ns a k i => simp only [Actor.step]; cases getOpen s ns <;> exact h
+  | getMany ns => simp only [Actor.step]; cases getOpen s ns <;> exact h
+  | syncInitial ns =>
+    simp only [Actor.step]
+    cases getOpen s ns with
+    | none => exact h
+    | some r => simp only; split <;> exact h
+  | syncProcess ns now msg =>
+    simp only [Actor.step]
+    cases getOpen s ns with
+    | none => exact h
+    | some r =>
+      simp only
+      split
+      · exact h
+      · show KindsOk (Replica.syncProcessMessage {} s.t ns now msg {}).1.store
+        unfold Replica.syncProcessMessage
+        exact Ranger.processMessage_preserves (Ranger.tableOps ns) {} _ _ KindsOk put_ok s.t msg h
+  | getState ns => simp only [Actor.step]; cases getOpen s ns <;> exact h
+  | dropReplica ns =>
+    simp only [Actor.step]
+    split
+    · rw [close_t]; exact h
+    · intro r hr
+      have : r ∈ (closeR s ns).1.t.namespaces := by
+        simp only [removeReplica] at hr
+        exact (List.mem_filter.mp hr).1
+      rw [close_t] at this
+      exact h r this
+  | importNamespace ns kind raw =>
+    have hk := hw ns kind raw rfl
+    have := kindsOk_import s.t ns kind raw h hk
+    simp only [Actor.step]
+    cases (importNamespace s.t ns kind raw).2 <;>
+      cases getOpen { s with t := (importNamespace s.t ns kind raw).1 } ns <;> exact this
+  | exportSecret ns =>
+    simp only [Actor.step]
+    cases getOpen s ns with
+    | none => exact h
+    | some r => simp only; split <;> exact h
+
+theorem step_kindsOk (s : AState) (r : Req) (h : KindsOk s.t) (hw : r.wf) : KindsOk (step s r).1.t := by
+  cases r with
+  | importNs ns kind raw =>
+    rw [step_importNs]
+    apply actor_step_kindsOk
+    · apply actor_step_kindsOk _ _ h
+      intro ns' k' raw' heq
+      cases heq
+      exact hw
+    · intro ns' k' raw' heq; cases heq
+  | openDoc ns => exact actor_step_kindsOk s _ h (by intro _ _ _ heq; cases heq)
+  | closeDoc ns => exact actor_step_kindsOk s (.close ns) h (by intro _ _ _ heq; cases heq)
+  | setHash ns e => exact actor_step_kindsOk s _ h (by intro _ _ _ heq; cases heq)
+  | dropDoc ns => exact actor_step_kindsOk s _ h (by intro _ _ _ heq; cases heq)
+  | getExact ns a k i => exact actor_step_kindsOk s _ h (by intro _ _ _ heq; cases heq)
+  | status ns => exact actor_step_kindsOk s _ h (by intro _ _ _ heq; cases heq)
+
+/-- both invariants hold after any history of well-formed client requests on a fresh node -/
+theorem reachable_inv (rs : List Req) (hw : ∀ r ∈ rs, r.wf) :
+    OpenInv (run {} rs).1 ∧ KindsOk (run {} rs).1.t := by
+  unfold run
+  suffices h : ∀ (acc : AState × List Reply), OpenInv acc.1 ∧ KindsOk acc.1.t →
+      OpenInv (rs.foldl (fun (acc : AState × List Reply) a => let (s', r) := step acc.1 a; (s', acc.2 ++ [r])) acc).1 ∧
+      KindsOk (rs.foldl (fun (acc : AState × List Reply) a => let (s', r) := step acc.1 a; (s', acc.2 ++ [r])) acc).1.t from
+    h _ ⟨openInv_init {}, by intro r hr; cases hr⟩
+  induction rs with
+  | nil => intro acc h; exact h
+  | cons a rest ih =>
+    intro acc h
+    simp only [List.foldl_cons]
+    apply ih (fun r hr => hw r (List.mem_cons_of_mem _ hr))
+    exact ⟨step_openInv acc.1 a h.1, step_kindsOk acc.1 a h.2 (hw a List.mem_cons_self)⟩
+
+/-- **C07 at the client API, for every history.** After *any* sequence of client requests on a
+fresh node, importing the write secret of a document answers ok and a write through any handle
+issued next is neither refused as read-only nor as not-open — whether the document was unknown,
+read-only or writable, closed or open (through handles obtained before the upgrade). -/
+theorem import_write_then_write_any_history (rs : List Req) (hw : ∀ r ∈ rs, r.wf)
+    (ns raw : Bytes) (e : Entry) :
+    let s := (run {} rs).1
+    (step s (.importNs ns 1 raw)).2 = .ok ∧
+    (step (step s (.importNs ns 1 raw)).1 (.setHash ns e)).2 ≠ .errReadOnly ∧
+    (step (step s (.importNs ns 1 raw)).1 (.setHash ns e)).2 ≠ .errNotOpen := by
+  intro s
+  obtain ⟨inv, hk⟩ := reachable_inv rs hw
+  have hk' : ∀ k0 raw0, nsGet s.t ns = some (k0, raw0) → k0 = 1 ∨ k0 = 2 :=
+    fun k0 raw0 hg => kindsOk_nsGet hk hg
+  exact ⟨(api_import_write s ns raw inv hk').1, api_write_after_import s ns raw e inv hk'⟩
+
+end Rpc
